@@ -648,14 +648,17 @@ EB_API EbErrorType svt_av1_dec_deinit(EbComponentType *svt_dec_component) {
 
     if (!dec_handle_ptr)
         return EB_ErrorNone;
-    if (dec_handle_ptr->dec_config.threads > 1)
+    // worker threads only exist once the first frame header has been seen
+    if (dec_handle_ptr->dec_config.threads > 1 && dec_handle_ptr->start_thread_process)
         dec_sync_all_threads(dec_handle_ptr);
     if (!svt_dec_memory_map)
         return EB_ErrorNone;
 
     // Loop through the ptr table and free all malloc'd pointers per channel
+    // (the table is empty, i.e. only holds its uninitialised head node, until the first
+    //  sequence header has been decoded)
     EbMemoryMapEntry *memory_entry = svt_dec_memory_map;
-    do {
+    while (memory_entry != dec_handle_ptr->memory_map_init_address && memory_entry) {
         switch (memory_entry->ptr_type) {
         case EB_N_PTR: free(memory_entry->ptr); break;
         case EB_A_PTR:
@@ -673,7 +676,7 @@ EB_API EbErrorType svt_av1_dec_deinit(EbComponentType *svt_dec_component) {
         EbMemoryMapEntry *tmp_memory_entry = memory_entry;
         memory_entry                       = tmp_memory_entry->prev_entry;
         free(tmp_memory_entry);
-    } while (memory_entry != dec_handle_ptr->memory_map_init_address && memory_entry);
+    }
     free(dec_handle_ptr->memory_map_init_address);
     return return_error;
 }
